@@ -127,8 +127,9 @@ def run(ctx):
     # subprocess (a worker forked later would inherit the pipe of a running `go test` and keep it open).
     ppool = cf.ProcessPoolExecutor(max_workers=4)
     futs = [(j[1], ppool.submit(_job, j)) for j in jobs]
-    tpool = cf.ThreadPoolExecutor(max_workers=3)
+    tpool = cf.ThreadPoolExecutor(max_workers=4)
     fb = tpool.submit(goenv.run_harness, ctx, PKG, "^TestVerifC08Bytes$", timeout=1500)
+    ff = tpool.submit(goenv.run_harness, ctx, PKG, "^TestVerifC08KeyFamily$", timeout=1500)
     need = {"A-edges-peer", "A-edges-rsvp", "A-edges-test", "B-edges", "C-edges", "B3-edges"}
     results = {n: f.result() for n, f in futs if n in need}
 
@@ -219,7 +220,7 @@ def run(ctx):
     fe = tpool.submit(goenv.run_harness, ctx, PKG, "^TestVerifC08Envelope$", inputs=beh, timeout=1500)
     fk = tpool.submit(goenv.run_harness, ctx, PKG, "^TestVerifC08Keys$", inputs=beh, timeout=1500)
     try:
-        env, byt, key = fe.result(), fb.result(), fk.result()
+        env, byt, key, fam = fe.result(), fb.result(), fk.result(), ff.result()
         for n, f in futs:
             if n not in results:
                 results[n] = f.result()
@@ -230,7 +231,7 @@ def run(ctx):
     states = sum(r["distinct"] for r in results.values())
     trans = sum(r["generated"] for r in results.values())
     div = 0
-    for res, what in ((env, "envelope"), (byt, "bytes"), (key, "keys")):
+    for res, what in ((env, "envelope"), (byt, "bytes"), (key, "keys"), (fam, "family")):
         if res["_rc"] != 0:
             raise MachineryError("harness test %s failed:\n%s" % (what, res["_log"][-3000:]))
         div += classify_mismatches(ctx, res, what)
@@ -247,6 +248,19 @@ def run(ctx):
             raise MachineryError("vacuous: no byte-level edit changed exactly: %s" % cls)
     if not bx.get("bytes.accepted.same"):
         raise MachineryError("vacuous: no content-preserving edit was accepted")
+    fx = fam.get("extra", {})
+    members = fx.get("members") or []
+    if len(members) < 9:
+        raise MachineryError("key family has only %d members" % len(members))
+    for m in members:
+        if fx.get("family.signatures." + m, 0) < 64:
+            raise MachineryError("vacuous: fewer than 64 signatures for key family member %s" % m)
+        for how in ("generated", "UnmarshalPrivateKey", "PrivFromRaw", "UnmarshalPublicKey", "PubFromRaw", "PublicKeyFromProto"):
+            if not fx.get("family.forms.%s.%s" % (m, how)):
+                raise MachineryError("vacuous: no %s key obtained by %s" % (m, how))
+    for kind in ("untyped", "typed", "pmem", "pds"):
+        if not fx.get("family.consume." + kind):
+            raise MachineryError("vacuous: key family never reached the %s consumer" % kind)
     kx = key.get("extra", {})
     for kt in ("Ed25519", "Secp256k1", "ECDSA", "RSA"):
         for e in ("x-unknown-append", "x-dup-field", "x-reorder", "x-nonminimal-len"):
@@ -261,7 +275,7 @@ def run(ctx):
             raise MachineryError("vacuous: real consumer %s never accepted anything" % kind)
 
     cov = evidence.mc_coverage(
-        states, trans, env["replayed"] + byt["replayed"] + key["replayed"],
+        states, trans, env["replayed"] + byt["replayed"] + key["replayed"] + fam["replayed"],
         (env.get("samples") or [])[:1] + (byt.get("samples") or [])[:1] + (key.get("samples") or [])[:1],
         exhaustive=True,
         checker_cmd="tlc C08_MC.tla / C08_MCB.tla (template C08_MC.cfg; parts A, B, C; broken acceptance rules %s evaluated per transition)" % ",".join(BROKEN),
@@ -281,12 +295,15 @@ def run(ctx):
         replay_keys={"behaviours": key["replayed"], "steps": key["steps"], "distinct": key["distinct"],
                      "counters": {k: v for k, v in sorted(key.get("extra", {}).items()) if k.startswith("C.")},
                      "keys_generated": key.get("extra", {}).get("keys_generated")},
+        replay_key_family={"keys": fam["replayed"], "signatures": fam["steps"], "members": members,
+                           "counters": {k: v for k, v in sorted(fx.items()) if k.startswith("family.") and "siglen" not in k},
+                           "signature_lengths_seen": {k[len("family.siglen."):]: v for k, v in sorted(fx.items()) if k.startswith("family.siglen.")}},
         divergences_L2=div, notes=ctx.notes[:12])
     return {"level": "model_checking", "coverage": cov, "assumptions": [
         "symbolic cryptography: signatures are terms, Verify(k',m',Sign(k,m)) <=> k'=k /\\ m'=m; bit-level correctness of Ed25519/ECDSA/secp256k1/RSA primitives is trusted, exercised only on the concrete cases listed in the coverage",
         "golang/protobuf decoding of the envelope is the oracle for what an edited wire form contains",
-        "bounded: at most %d attacker edits per behaviour (replayed: 2), strings of length <= 3 over a two-letter alphabet for injectivity, <= %d for the replayed shifted-boundary pairs; RSA keys are generated once per run (2048%s)"
-        % (4 if thorough else 2, 3 if thorough else 2, " and 3072" if thorough else ""),
+        "bounded: at most %d attacker edits per behaviour (replayed: 2), strings of length <= 3 over a two-letter alphabet for injectivity, <= %d for the replayed shifted-boundary pairs; the key dimension is a family per type (ECDSA P-256/P-384/P-521/P-224, RSA 2048/3072/4096 with embedded test keys for the larger sizes, fresh Ed25519/secp256k1 keys incl. ones searched for leading-zero / high-bit serialisations); RSA-2048 keys are generated once per run%s"
+        % (4 if thorough else 2, 3 if thorough else 2, ""),
         "ConsumeTypedEnvelope does not compare the wire payload type with the destination record's codec (documented caller responsibility); the statement only requires the reported type to be the sealed one",
         "the relay voucher consumer is record.ConsumeEnvelope with the voucher domain plus the *ReservationVoucher type assertion, as in circuitv2/client; the client's further checks (relay ID, own ID) need a live host and are out of scope",
     ]}
